@@ -36,7 +36,26 @@ claim("C09", "model_checking", "line-count: " + PURE,
       "TLA+ spec Rules.tla (CountStep loop vs NonBlank contract) model-checked with TLC; spec->impl replay in three "
       "layouts; impl->spec trace validation (TraceRules.tla)", "DESIGN.md §6 C06-C09")
 
-for pid in ["C01", "C02", "C03", "C04", "C05", "C10", "C11", "C12", "C13", "C14", "C15", "C16", "C17", "C18", "C19", "C20"]:
+DT = ("TLC enumerates every edit script (<= MaxOps ops over K/D/I/M) x block placement x comment layout x "
+      "character-level edit kind of DiffTouch.tla, checks that the ideal walk meets the three-valued contract "
+      "(MUST / MUSTNOT / gray) and that the stepwise DiffWalk actions equal the recursive walk, and emits for every "
+      "behaviour the contract plus the prediction of the as-coded walk under each repair of the named deviations; "
+      "every behaviour is replayed in-process with a synthesised git diff and a sample through real git + the CLI. ")
+claim("C01", "model_checking", DT + "Failures are excused only when a listed known finding (DV1/DV2/DV2p) explains them "
+      "exactly (as-coded model == observation, repaired model meets the contract).",
+      "Trusted: the concretiser's layout table (columns asserted against the spec constants), the diff synthesiser "
+      "(cross-checked against git on every CLI case), tree-sitter-javascript comment recognition. Gray: ops touching or "
+      "adjoining tag lines, tag-line rewrites inside larger change groups.",
+      "TLA+ spec DiffTouch.tla (DiffWalk actions + Touch operators vs edit-script contract) model-checked with TLC; "
+      "spec->impl replay of every behaviour (bwexec, real git + CLI); deviation switches attribute known findings",
+      "DESIGN.md §6 C01")
+claim("C02", "model_checking", DT + "Every block carries an always-violated rule, so selection is visible in the report; "
+      "with a path argument every block of the file must be reported.",
+      "Trusted: as C01. Gray: edits on region edges (first/last character of the tag, comment delimiters).",
+      "TLA+ spec DiffTouch.tla (selection contract MustSelect/MustNotSelect) model-checked with TLC; spec->impl replay "
+      "(list + run + run-with-glob per behaviour); deviation switches attribute known findings", "DESIGN.md §6 C02")
+
+for pid in ["C03", "C04", "C05", "C10", "C11", "C12", "C13", "C14", "C15", "C16", "C17", "C18", "C19", "C20"]:
     NA[pid] = "check not built yet in this round (planned, see DESIGN.md §6); not a limit of the technique"
 
 
